@@ -34,6 +34,11 @@ pub fn detail(o: &Outcome) -> serde_json::Value {
 
 /// run one scenario under `focus` and hand a successfully built transaction to `monitor`
 pub fn scenario(ctx: &mut Ctx, r: &mut Rng, focus: Focus, monitor: fn(&mut Ctx, &Outcome, &Tx, &KeyRing)) {
+    scenario_ex(ctx, r, focus, monitor, None)
+}
+
+/// as `scenario`; `on_balance_err` also sees the histories whose balancing call failed (no transaction)
+pub fn scenario_ex(ctx: &mut Ctx, r: &mut Rng, focus: Focus, monitor: fn(&mut Ctx, &Outcome, &Tx, &KeyRing), on_balance_err: Option<fn(&mut Ctx, &Outcome)>) {
     let ring = ring(ctx);
     let o = match run_scenario(r, ring, focus) {
         Some(o) => o,
@@ -49,6 +54,9 @@ pub fn scenario(ctx: &mut Ctx, r: &mut Rng, focus: Focus, monitor: fn(&mut Ctx, 
         (Ok(_), Ok(_)) => ctx.bucket("outcome.built"),
     }
     ctx.bucket(&format!("balance.{}.{}", balance_name(&o.balance), if o.balance_result.is_ok() { "ok" } else { "err" }));
+    if let (Err(_), Some(f)) = (&o.balance_result, on_balance_err) {
+        f(ctx, &o);
+    }
     if let Some(bytes) = &o.tx_bytes {
         match Tx::parse(bytes) {
             Ok(tx) => {
@@ -885,6 +893,43 @@ pub fn c19_monitor(ctx: &mut Ctx, o: &Outcome, tx: &Tx, _ring: &KeyRing) {
         Balance::InputsFromAndChangeWithCollateralReturn(_, pct) => Some(pct),
         _ => None,
     }, &detail(o), "scenario");
+}
+
+/// "a failed attempt leaves neither field set": the percentage helper failed; what does the builder hold now?
+pub fn c19_failed_helper(ctx: &mut Ctx, o: &Outcome) {
+    if !matches!(o.balance, Balance::InputsFromAndChangeWithCollateralReturn(_, _)) {
+        return;
+    }
+    if matches!(&o.collateral_op, Some((_, Ok(())))) {
+        // the history itself set the fields earlier with another helper
+        ctx.bucket("c19.failed-helper.fields-set-earlier-by-the-history");
+        return;
+    }
+    let mut tb = o.builder.clone();
+    if o.builder.get_fee_if_set().is_none() {
+        tb.set_fee(&BigNum::from(300_000u64));
+    }
+    let bytes = match guard(|| tb.build_tx_unsafe().map(|t| t.to_bytes())) {
+        Ok(Ok(b)) => b,
+        _ => {
+            ctx.bucket("c19.failed-helper.body-could-not-be-assembled");
+            return;
+        }
+    };
+    let tx = match Tx::parse(&bytes) {
+        Ok(t) => t,
+        Err(_) => return,
+    };
+    let mut hv = bytes.clone();
+    hv.extend_from_slice(b"failed-helper");
+    ctx.nontrivial_bytes("c19", &hv);
+    if tx.field(16).is_some() || tx.field(17).is_some() {
+        let mut d = detail(o);
+        d["body_after_failed_attempt"] = json!(hx(&bytes));
+        ctx.violation("add_inputs_from_and_change_with_collateral_return/failed-attempt-left-a-field-set", d);
+    } else {
+        ctx.bucket("c19.failed-helper.leaves-neither-field");
+    }
 }
 
 /// the collateral equation on an emitted body
